@@ -145,4 +145,70 @@ def resizeLocalEntries (pc : PClass) (e : SNode) (mi : VEntries) : VEntries → 
 termination_by structural mo => mo
 end
 
+/-! ### C17's liveness predicate: with probability 1 every discrete kind of parameter is really varied -/
+
+mutual
+/-- comparing a value with its mutation at probability 1: every boolean is flipped, every enum changed, every
+    variant switched (and the new option, started from its initial value, is itself varied), every optional part
+    flips its presence, every resizable map changes its size; elements that keep their key are varied too.
+    Reals and integers are distributional (a sample may be clamped onto the old value) and are not constrained. -/
+def liveOne : SNode → VNode → VNode → Bool
+  | .bool _, .bool x, .bool y => x != y
+  | .enum _ _, .enum x, .enum y => x != y
+  | .sub sf, .sub fi, .sub fo => liveOneFields sf fi fo
+  | .array e _, .array li, .array lo => liveOneList e li lo
+  | .amap e _ _ _, .amap mi, .amap mo => mo.length != mi.length && liveOneEntries e mi mo
+  | .variant opts _, .variant n _, .variant n' v' =>
+      n != n' && (match opts.lookup n' with | some cs => liveOne cs (initialValue cs) v' | none => true)
+  | .opt e _, .onone, .osome v' => liveOne e (initialValue e) v'
+  | .opt _ _, .osome _, .onone => true
+  | .opt _ _, .osome _, .osome _ => false
+  | .opt _ _, .onone, .onone => false
+  | _, _, _ => true
+termination_by structural _ _ vout => vout
+def liveOneFields : SFields → VFields → VFields → Bool
+  | .cons _ s sr, .cons _ v vr, .cons _ v' vr' => liveOne s v v' && liveOneFields sr vr vr'
+  | _, _, _ => true
+termination_by structural _ _ fo => fo
+def liveOneList (e : SNode) : VList → VList → Bool
+  | .cons v r, .cons v' r' => liveOne e v v' && liveOneList e r r'
+  | _, _ => true
+termination_by structural _ lo => lo
+def liveOneEntries (e : SNode) (mi : VEntries) : VEntries → Bool
+  | .nil => true
+  | .cons k v' r => (match mi.lookup k with | some v => liveOne e v v' | none => true) && liveOneEntries e mi r
+termination_by structural mo => mo
+end
+
+/-! ### numeric leaves that one mutation left unchanged (C17: "within a few attempts", a frequency clause) -/
+
+/-- order code of `1.0` -/
+def f64One : F64 := .fin 4607182418800017408
+
+mutual
+/-- paths of the real / integer leaves with scale >= 1 that have the same value before and after; positions below
+    a variant, an optional or a map element that did not survive are not comparable and are skipped -/
+def stuckNum : SNode → VNode → VNode → List String → List (List String)
+  | .real _ sc _ _, .real x, .real y, p => if F64.le f64One sc && x == y then [p] else []
+  | .int _ sc _ _, .int x, .int y, p => if F64.le f64One sc && x == y then [p] else []
+  | .sub sf, .sub fi, .sub fo, p => stuckNumFields sf fi fo p
+  | .array e _, .array li, .array lo, p => stuckNumList e li lo p 0
+  | .amap e _ _ _, .amap mi, .amap mo, p => stuckNumEntries e mi mo p
+  | _, _, _, _ => []
+termination_by structural _ _ vout => vout
+def stuckNumFields : SFields → VFields → VFields → List String → List (List String)
+  | .cons k s sr, .cons _ v vr, .cons _ v' vr', p => stuckNum s v v' (k :: p) ++ stuckNumFields sr vr vr' p
+  | _, _, _, _ => []
+termination_by structural _ _ fo => fo
+def stuckNumList (e : SNode) : VList → VList → List String → Nat → List (List String)
+  | .cons v r, .cons v' r', p, i => stuckNum e v v' (toString i :: p) ++ stuckNumList e r r' p (i+1)
+  | _, _, _, _ => []
+termination_by structural _ lo => lo
+def stuckNumEntries (e : SNode) (mi : VEntries) : VEntries → List String → List (List String)
+  | .nil, _ => []
+  | .cons k v' r, p =>
+      (match mi.lookup k with | some v => stuckNum e v v' (toString k :: p) | none => []) ++ stuckNumEntries e mi r p
+termination_by structural mo => mo
+end
+
 end Cambrian
